@@ -109,7 +109,10 @@ pub fn generate(ch: &mut Chunker, prop: &str, thorough: bool, seed: u64, replays
         "C01" => gen_wrap_family(ch, &mut r, "C01", thorough, scale),
         "C02" => gen_wrap_family(ch, &mut r, "C02", thorough, scale),
         "C07" => gen_wrap_family(ch, &mut r, "C07", thorough, scale),
-        "C08" => gen_wrap_family(ch, &mut r, "C08", thorough, scale),
+        "C08" => {
+            gen_wrap_family(ch, &mut r, "C08", thorough, scale);
+            crate::props2::gen_c08_pairs(ch, &mut r, scale);
+        }
         _ => crate::props2::generate2(ch, prop, &mut r, thorough, scale),
     }
 }
